@@ -231,7 +231,8 @@ pub struct McnkHeader {
     #[br(map = |x: u32| if x >= 0x100000 { 0 } else { x })]
     pub ofs_liquid: u32,
 
-    /// Size of MCLQ chunk data in bytes
+    /// Size of MCLQ chunk in bytes, including its 8-byte chunk header
+    /// (8 means an empty placeholder with no liquid data)
     #[br(map = |x: u32| if x >= 0x100000 { 0 } else { x })]
     pub size_liquid: u32,
 
